@@ -385,8 +385,8 @@ theorem expInv_step : StepInvariant (fun _ => True) ExpInv where
   touchOp := fun s c k exp h => opTouch_expInv s c k exp h
   wmeta := fun s c k old new exp xs body j d _ h => opWriteWithMeta_expInv s c k old new exp xs body j d h
   draw := fun s h => ExpInv.frame rfl rfl h
-  restart := fun s p _ => reopen_expInv s p
-  purge := fun s h => by
+  restart := fun s p _ _ => reopen_expInv s p
+  purge := fun s _ h => by
     intro p hp d hd
     simp only [opPurge, List.mem_map] at hp
     obtain ⟨q, hq, rfl⟩ := hp
